@@ -32,6 +32,18 @@ CHECKS = {
              "`xonsh -c`/scripts, $LAST_RETURN_CODE. One known finding ($[..]/$(..) operands judged by value) is listed in known_findings.jsonl.",
         ref="DESIGN.md 4 C05",
     ),
+    "C11": dict(
+        text="Bounded model checking of Env.swap/overlay/mask scoping on the real Env and InternalEnvironDict code: from every pre-state of "
+             "a variable (global unset/set x thread-local absent/value/mask, registered-with-default or unregistered) nested scopes "
+             "(depth 1-2 quick, 3 thorough) with every swap/overlay/mask/body-operation/exit-kind combination (exit by return, Exception, "
+             "BaseException) must leave every read path ([], in, get, iteration, detype(), detype_all()) as a 20-line layer model "
+             "predicts; a two-thread obligation interleaves a reader thread (independent or inheriting at spawn) with a scope in another "
+             "thread at API-call granularity. The solver case-splits the finite-domain choices and decides each path; all trees exhaust.",
+        note="Finite-domain claim: the case split is over class representatives (values are opaque to the code). Thread obligation: "
+             "the thread-local storage is replaced by per-logical-thread dicts, interleaving granularity is one Env call. "
+             "$UPDATE_OS_ENVIRON mirroring and real preemption inside a call are outside. Two defects found here were repaired (fix: commits).",
+        ref="DESIGN.md 4 C11",
+    ),
 }
 
 NA = {
